@@ -39,6 +39,7 @@ type tracer struct {
 	objName map[int]string
 	objs    map[int]*Object
 	it      *Interp
+	mute    int // > 0: accesses are part of an atomic operation (recorded as atomicR/atomicW), not plain loads/stores
 }
 
 type pendingGo struct {
@@ -59,8 +60,14 @@ func (t *tracer) add(e Event) {
 func (t *tracer) access(o *Object, idx int, write bool) {
 	// every object access is recorded; objects touched by one thread only are filtered out by the decider.
 	// Before the first goroutine is started nothing can race (those accesses precede every other thread).
-	if len(t.threads) == 1 {
+	if len(t.threads) == 1 || t.mute > 0 {
 		return
+	}
+	// accesses made by the methods of sync/atomic's typed values are atomic operations, not plain loads and stores
+	if t.it != nil {
+		if n := len(t.it.curFn); n > 0 && t.it.pkgOf(t.it.curFn[n-1]) == "sync/atomic" {
+			return
+		}
 	}
 	k := "R"
 	if write {
